@@ -2,7 +2,7 @@
 use crate::rng::Rng;
 
 pub const KINDS: &[&str] = &[
-    "zeros", "runs", "text4", "random", "highbyte", "sparse3", "words", "repeat_far", "xx", "ramp", "skew",
+    "zeros", "runs", "text4", "random", "highbyte", "sparse3", "words", "repeat_far", "xx", "ramp", "skew", "wrap_runs", "fat_boundary", "lazy_cut",
 ];
 
 pub fn gen(rng: &mut Rng, kind: &str, len: usize) -> Vec<u8> {
@@ -74,6 +74,61 @@ pub fn gen(rng: &mut Rng, kind: &str, len: usize) -> Vec<u8> {
             v.extend_from_slice(&rest[..cut]);
             v.extend_from_slice(&pool[..rare]);
             v.extend_from_slice(&rest[cut..]);
+        }
+        "lazy_cut" => {
+            // incompressible filler (a 16-bit counter: no 3-byte repeats) in which a deferred (lazy) match
+            // is superseded by a longer one exactly where a 31 KiB block is cut: earlier text holds
+            // W (8 bytes) and q ++ W[0..3]; at the cut stands q ++ W
+            let mut salt = rng.next() as u16;
+            let mut fill = |v: &mut Vec<u8>, upto: usize, salt: &mut u16| { while v.len() < upto { v.push((*salt >> 8) as u8); if v.len() < upto { v.push(*salt as u8); } *salt = salt.wrapping_add(1); } };
+            let w: Vec<u8> = (0..8).map(|i| 0xF1u8.wrapping_sub(i * 15).wrapping_add(rng.byte() & 3)).collect();
+            let q = 0xFEu8;
+            let cut = 31744usize;
+            if len < cut + 20 { fill(&mut v, len, &mut salt); }
+            else {
+                let a = rng.range(20000, 30000); fill(&mut v, a, &mut salt); v.extend_from_slice(&w);
+                let b = rng.range(v.len() + 10, 31000); salt = salt.wrapping_add(0x4000); fill(&mut v, b, &mut salt);
+                v.push(q); v.extend_from_slice(&w[..3]); v.push(0);
+                let shift = if rng.chance(3, 4) { 0 } else { rng.range(0, 3) };
+                salt = salt.wrapping_add(0x4000); fill(&mut v, cut + shift, &mut salt);
+                v.push(q); v.extend_from_slice(&w);
+                salt = salt.wrapping_add(0x4000); fill(&mut v, len, &mut salt);
+            }
+        }
+        "fat_boundary" => {
+            // incompressible bytes (blocks are cut after 31 KiB of literals) with a dense patch of short
+            // matches around every multiple of 31744, so that a lazy match is pending when the block is cut
+            for _ in 0..len { v.push(rng.byte()); }
+            let mut k = 31744usize;
+            while k < len {
+                let lo = k.saturating_sub(rng.range(8, 40));
+                let hi = (k + rng.range(8, 40)).min(len);
+                let mut p = lo;
+                while p + 8 < hi {
+                    let n = rng.range(3, 7);
+                    let d = rng.range(1, 2000).min(p);
+                    for i in 0..n { v[p + i] = v[p + i - d]; }
+                    p += n + rng.range(0, 2);
+                }
+                k += 31744;
+            }
+        }
+        "wrap_runs" => {
+            // random bytes with runs and short repeats placed to start exactly at (or within 2 bytes of)
+            // multiples of the 32 KiB dictionary size, where ring indices wrap
+            for _ in 0..len { v.push(rng.byte()); }
+            let mut k = 32768usize;
+            while k < len + 4 {
+                let delta = rng.range(0, 4) as i64 - 2;
+                let start = (k as i64 + if rng.chance(1, 2) { 0 } else { delta }).max(1) as usize;
+                let n = rng.range(3, 40);
+                if start + n <= len {
+                    let b = v[start - 1].wrapping_add(1 + rng.below(200) as u8); // differs from the byte before
+                    if rng.chance(2, 3) { for i in 0..n { v[start + i] = b; } }
+                    else { let d = rng.range(1, 300).min(start); for i in 0..n { v[start + i] = v[start + i - d]; } }
+                }
+                k += 32768;
+            }
         }
         "xx" => {
             let h = len / 2;
